@@ -12,40 +12,55 @@ import (
 	"time"
 )
 
-// half is one direction of a duplex in-memory connection: unbounded buffer, blocking reads
-// with deadline support, never-blocking writes.
-type half struct {
-	mu       sync.Mutex
-	cond     *sync.Cond
-	buf      []byte
-	closed   bool
-	deadline time.Time
-	timer    *time.Timer
-	// log of every byte ever written into this half
-	log []byte
+// hub is shared by all connections of one session: one mutex and one condition variable, so
+// that "nothing can happen any more" (every proxy pump blocked reading an empty buffer) is
+// observable without timing.
+type hub struct {
+	mu   sync.Mutex
+	cond *sync.Cond
 }
 
-func newHalf() *half {
-	h := &half{}
+func newHub() *hub {
+	h := &hub{}
 	h.cond = sync.NewCond(&h.mu)
 	return h
 }
 
+// half is one direction of a duplex in-memory connection: unbounded buffer, blocking reads
+// with deadline support, never-blocking writes.
+type half struct {
+	hub      *hub
+	buf      []byte
+	closed   bool
+	deadline time.Time
+	timer    *time.Timer
+	waiting  int // readers currently blocked on an empty buffer
+	// quiet, when set, makes a read on an empty buffer return ErrQuiescent as soon as quiet()
+	// holds instead of blocking (used by the harness ends only)
+	quiet func() bool
+	// log of every byte ever written into this half
+	log []byte
+}
+
+// ErrQuiescent is returned by a harness-side read when no byte is available and the proxy
+// cannot produce any: all its pumps are blocked reading empty buffers.
+var ErrQuiescent = errors.New("sess: proxy is quiescent, no more bytes will arrive")
+
 func (h *half) write(p []byte) (int, error) {
-	h.mu.Lock()
-	defer h.mu.Unlock()
+	h.hub.mu.Lock()
+	defer h.hub.mu.Unlock()
 	if h.closed {
 		return 0, io.ErrClosedPipe
 	}
 	h.buf = append(h.buf, p...)
 	h.log = append(h.log, p...)
-	h.cond.Broadcast()
+	h.hub.cond.Broadcast()
 	return len(p), nil
 }
 
 func (h *half) read(p []byte) (int, error) {
-	h.mu.Lock()
-	defer h.mu.Unlock()
+	h.hub.mu.Lock()
+	defer h.hub.mu.Unlock()
 	for len(h.buf) == 0 {
 		if h.closed {
 			return 0, io.EOF
@@ -53,7 +68,13 @@ func (h *half) read(p []byte) (int, error) {
 		if !h.deadline.IsZero() && !time.Now().Before(h.deadline) {
 			return 0, os.ErrDeadlineExceeded
 		}
-		h.cond.Wait()
+		if h.quiet != nil && h.quiet() {
+			return 0, ErrQuiescent
+		}
+		h.waiting++
+		h.hub.cond.Broadcast() // a pump going to sleep may make the session quiescent
+		h.hub.cond.Wait()
+		h.waiting--
 	}
 	n := copy(p, h.buf)
 	h.buf = h.buf[n:]
@@ -61,8 +82,8 @@ func (h *half) read(p []byte) (int, error) {
 }
 
 func (h *half) setDeadline(t time.Time) {
-	h.mu.Lock()
-	defer h.mu.Unlock()
+	h.hub.mu.Lock()
+	defer h.hub.mu.Unlock()
 	h.deadline = t
 	if h.timer != nil {
 		h.timer.Stop()
@@ -74,20 +95,23 @@ func (h *half) setDeadline(t time.Time) {
 			d = 0
 		}
 		h.timer = time.AfterFunc(d, func() {
-			h.mu.Lock()
-			h.cond.Broadcast()
-			h.mu.Unlock()
+			h.hub.mu.Lock()
+			h.hub.cond.Broadcast()
+			h.hub.mu.Unlock()
 		})
 	}
-	h.cond.Broadcast()
+	h.hub.cond.Broadcast()
 }
 
 func (h *half) close() {
-	h.mu.Lock()
+	h.hub.mu.Lock()
 	h.closed = true
-	h.cond.Broadcast()
-	h.mu.Unlock()
+	h.hub.cond.Broadcast()
+	h.hub.mu.Unlock()
 }
+
+// idle reports (hub lock held) that the reader of this half is asleep on an empty buffer.
+func (h *half) idle() bool { return h.waiting > 0 && len(h.buf) == 0 }
 
 // Conn is one end of a duplex in-memory connection.
 type Conn struct {
@@ -100,9 +124,11 @@ type addr string
 func (a addr) Network() string { return "mem" }
 func (a addr) String() string  { return string(a) }
 
-// Pipe returns the two ends of a buffered duplex connection.
-func Pipe(nameA, nameB string) (*Conn, *Conn) {
-	ab, ba := newHalf(), newHalf()
+// Pipe returns the two ends of a buffered duplex connection (own hub).
+func Pipe(nameA, nameB string) (*Conn, *Conn) { return pipeOn(newHub(), nameA, nameB) }
+
+func pipeOn(h *hub, nameA, nameB string) (*Conn, *Conn) {
+	ab, ba := &half{hub: h}, &half{hub: h}
 	return &Conn{in: ba, out: ab, name: nameA}, &Conn{in: ab, out: ba, name: nameB}
 }
 
@@ -127,15 +153,15 @@ func (c *Conn) SetWriteDeadline(t time.Time) error { return nil }
 
 // Received returns a copy of every byte the peer has written to this end so far.
 func (c *Conn) Received() []byte {
-	c.in.mu.Lock()
-	defer c.in.mu.Unlock()
+	c.in.hub.mu.Lock()
+	defer c.in.hub.mu.Unlock()
 	return append([]byte(nil), c.in.log...)
 }
 
 // Sent returns a copy of every byte written through this end.
 func (c *Conn) Sent() []byte {
-	c.out.mu.Lock()
-	defer c.out.mu.Unlock()
+	c.out.hub.mu.Lock()
+	defer c.out.hub.mu.Unlock()
 	return append([]byte(nil), c.out.log...)
 }
 
